@@ -78,7 +78,7 @@ class Report:
       return None
     return self.check(bool(verdict), rule, subject, func, construct, message, loc, detail, nontrivial)
 
-  def check_term(self, ok, term, vocabulary, rule, subject, func, construct, message, loc, detail='', nontrivial=True, fields=None):
+  def check_term(self, ok, term, vocabulary, rule, subject, func, construct, message, loc, detail='', nontrivial=True, fields=None, want=None):
     """Pattern obligation on an expression (`term`: AST or source text).  ok -> discharged.  Otherwise a violation only
     when the term is a closed term over `vocabulary` (a recognised different computation); a term that still reads
     unresolved names (helpers, table entries, locals the expansion left open) is not decided."""
@@ -99,6 +99,19 @@ class Report:
     if al:
       self.undecided(rule, subject, 'the term reads names the expansion did not resolve (%s): %s' % (', '.join(al[:4]), construct[:80]), loc)
       return None
+    # the expected form(s) given: the same data in a different container (pd.Series(X.to_numpy()) for X.reset_index()...)
+    # is not a different computation; whether the containers behave alike downstream is not decided here
+    if want is not None:
+      from mmsa.core import norm as _norm
+      core_t = _norm(_au.data_core(t))
+      for w in ([want] if isinstance(want, (str, _ast.AST)) else list(want)):
+        try:
+          w_ast = _ast.parse(w, mode='eval').body if isinstance(w, str) else w
+        except SyntaxError:
+          continue
+        if _norm(_au.data_core(w_ast)) == core_t:
+          self.undecided(rule, subject, 'the term `%s` holds the same data as the expected form in a different container: index alignment / dtype downstream are not followed' % _norm(t)[:80], loc)
+          return None
     return self.check(False, rule, subject, func, construct, message, loc, detail, nontrivial)
 
   def check(self, cond, rule, subject, func, construct, message, loc, detail='', nontrivial=True):
